@@ -33,7 +33,9 @@ CMonInit(h) == [h |-> h, socks |-> <<>>, phase |-> "idle", now |-> 0,
                 c |-> 0, kind |-> "none", ro |-> FALSE, start |-> 0,
                 hard |-> FALSE, soft |-> FALSE, rfault |-> FALSE, intr |-> FALSE,
                 expect |-> 0, sent |-> FALSE,
-                io |-> {}]                         \* sockets this call has sent on or read from
+                io |-> {},                         \* sockets this call has sent on or read from
+                asks |-> FALSE,                    \* the harness says this call has to consult the server
+                everfault |-> FALSE]               \* something has gone wrong on this object before (failover may skip a server)
 
 Open(sk) == sk.st \in {"created", "connected"}
 OpenIds(m) == { i \in DOMAIN m.socks : Open(m.socks[i]) }
@@ -96,6 +98,10 @@ CMonClauses(m, ev) ==
                   \A i \in DOMAIN ev.pend : ev.pend[i][2] = 0 \/ Abandoned(m, ev.pend[i][1])>>,
             <<"C01-no-request-left-half-sent-on-a-connection-that-stays-open",
                   \A i \in DOMAIN ev.pend : ev.pend[i][3] = 0 \/ Abandoned(m, ev.pend[i][1])>>,
+            (* a call that returns normally and had to ask the server did send its request in this call: what it returns is *)
+            (* computed from the answer to ITS commands, not remembered from an earlier call's reply                       *)
+            <<"C01-a-call-that-returns-has-asked-the-server-itself",
+                  (ev.e = "ret" /\ m.asks /\ Healthy(m) /\ ~m.everfault) => m.sent>>,
             <<"C06-failed-socket-closed-by-the-end-of-the-call",
                   \A i \in OpenIds(m) : ~m.socks[i].faulted>>,
             <<"C06-no-half-built-socket-left-open",
@@ -128,7 +134,8 @@ CMonEffect(m, ev) ==
   CASE ev.e = "tick" -> [m EXCEPT !.now = m.now + ev.d]
     [] ev.e = "call" -> [m EXCEPT !.phase = "busy", !.c = ev.c, !.kind = ev.kind, !.ro = ev.ro,
                                   !.start = m.now, !.hard = FALSE, !.soft = FALSE, !.intr = FALSE,
-                                  !.rfault = ev.rfault, !.expect = 0, !.sent = FALSE, !.io = {}]
+                                  !.rfault = ev.rfault, !.expect = 0, !.sent = FALSE, !.io = {},
+                                  !.asks = ("asks" \in DOMAIN ev) /\ ev.asks]
     [] ev.e = "resolve" -> [m EXCEPT !.hard = m.hard \/ IsFault(ev.fault)]
     [] ev.e = "sock" ->
          IF ev.fault = "none"
@@ -179,7 +186,8 @@ CMonEffect(m, ev) ==
                                           !.hard = TRUE, !.intr = TRUE]
          ELSE m
     [] ev.e \in {"ret", "raise"} ->
-         [m EXCEPT !.phase = "idle",
+         (* (everfault is only kept for traces whose header announces `asks`: the as-coded model's state space stays as it was) *)
+         [m EXCEPT !.phase = "idle", !.everfault = m.everfault \/ (("asks" \in DOMAIN m.h) /\ ~Healthy(m)),
                    !.socks = [i \in DOMAIN m.socks |->
                                 IF m.socks[i].st = "connected" /\ (\E j \in DOMAIN ev.pend : ev.pend[j][1] = i)
                                      /\ ~Expired(m, i)
